@@ -104,6 +104,26 @@ func c11Scenarios(tier string) []*explore.Scenario {
 type c11State struct {
 	dl          [4]time.Duration
 	blockedLate string
+	faultArmed  bool
+	faultWrite  int // which transport Write (0-based) fails
+	faultKind   netsim.Fault
+	writesSeen  int
+	faultOp     int // op index of the failed write (-1: not yet)
+	faulted     bool
+}
+
+//go:norace
+func (st *c11State) decide(c *netsim.Conn, kind netsim.OpKind, index int) netsim.Fault {
+	if !st.faultArmed || st.faulted || kind != netsim.OpWrite {
+		return netsim.OK
+	}
+	if st.writesSeen == st.faultWrite {
+		st.faulted, st.faultOp = true, index
+		st.writesSeen++
+		return st.faultKind
+	}
+	st.writesSeen++
+	return netsim.OK
 }
 
 //go:norace
@@ -156,6 +176,15 @@ func c11Body(x *explore.Ctx, server, deflate bool, nctl int, withClose, withRead
 	}
 	nc := netsim.NewConn(in)
 	hookTransport(l, nc, "c")
+	// optionally one transport Write fails (fail-stop must hold under every interleaving:
+	// a WriteControl already waiting for the connection must not write behind the torn frame)
+	st := &c11State{}
+	if fv := x.Choose(7, "transport-fault"); fv > 0 {
+		st.faultWrite = (fv - 1) / 2
+		st.faultKind = []netsim.Fault{netsim.FailShortTimeout, netsim.FailErr}[(fv-1)%2]
+		st.faultArmed = true
+		nc.Decide = st.decide
+	}
 	c := websocket.VerifNewConn(nc, server, 0, 125, nil, deflate)
 	pm, _ := websocket.NewPreparedMessage(websocket.TextMessage, []byte("prepared"))
 	var msgs []*c09Msg
@@ -199,7 +228,6 @@ func c11Body(x *explore.Ctx, server, deflate bool, nctl int, withClose, withRead
 	// every thread writes only to its own pre-allocated slots (the race flavour must not see
 	// harness races, and the harness must not synchronise)
 	ctls := make([]*c11Ctl, 2*nctl)
-	st := &c11State{}
 	for i := 0; i < nctl; i++ {
 		i := i
 		name := fmt.Sprintf("P%d", i)
@@ -253,6 +281,26 @@ func c11Body(x *explore.Ctx, server, deflate bool, nctl int, withClose, withRead
 	x.Check(st.blockedLate == "", key("writecontrol-waits-past-deadline"), "%s", st.blockedLate)
 	if s.Switches > 2 {
 		x.NonTrivial()
+	}
+	if st.faulted {
+		// fail-stop under concurrency: nothing is written after the failed transport write
+		// (the failed write is found in the log by its fault mark: under the scheduler other
+		// threads may log operations between the fault decision and the write itself)
+		failedAt := -1
+		for i, op := range nc.Ops {
+			if op.Kind == netsim.OpWrite && op.Fault != netsim.OK {
+				failedAt = i
+				break
+			}
+		}
+		if failedAt >= 0 {
+			for _, op := range nc.Ops[failedAt+1:] {
+				x.Check(op.Kind != netsim.OpWrite || len(op.Data) == 0, key("write-after-fault"), "transport Write (%d bytes accepted) after the write that failed (log position %d) (calls %v)", len(op.Data), failedAt, res)
+			}
+		}
+		_, perr := wsref.DecodeStrict(nc.Out, wsref.StrictOpts{Sender: RoleOf(server), Deflate: deflate, AllowPartial: true})
+		x.Check(perr == nil, key("prefix-malformed"), "bytes written before the fault are not whole frames plus at most one torn frame: %v", perr)
+		return
 	}
 	d, err := wsref.DecodeStrict(nc.Out, wsref.StrictOpts{Sender: RoleOf(server), Deflate: deflate, AllowPartial: true})
 	x.Check(err == nil, key("frames-interleaved"), "bytes on the wire are not a sequence of whole frames (frames of different writers interleaved?): %v", err)
